@@ -49,6 +49,7 @@ def budget(tier):
 
 
 def strategy(tier):
+    N.enable_long_texts(tier == "thorough")
     j = G.triple().map(lambda t: {"kind": "json", "base": t[0], "local": t[1], "remote": t[2]})
     n = N.pair().map(lambda t: {"kind": "nb", "a": t[0], "b": t[1]})
     m = st.tuples(N.triple(), S.strategy_args()).map(
